@@ -1,46 +1,350 @@
-"""C16 — synthetic time series: length/spacing proved on surface_timeseries; variance identities and reproducibility bounded
-(they rest on Parseval for numpy's irfft and on the random generator: library facts)."""
+"""C16 — synthetic time series.
+
+Proved: length / spacing of surface_timeseries; create_fourier_amplitudes under contract (complex arithmetic of the executor,
+pyvc/models/cplx.py) for the 1D spectrum (six components) and the 2D spectrum; with Parseval's identity for numpy's irfft as an
+explicit assumed library contract, the variance identities of the 1D series (z, w and the other components), seed determinism
+(the generator's output is a function of the seed) and sqrt(c) scaling.  Bounded: "differs between seeds", the unidirectional 2D
+cos^2/sin^2 split, everything on the real functions as a second line."""
+from fractions import Fraction
 from pyvc.api import *
 from pyvc.run import Lemma, Bounded
 from pyvc.api import CalleeContract
 import pyvc.terms as T
 import pyvc.lib as lib
-from pyvc.values import Arr, Obj, LibFunc
+import pyvc.models.xr as xr
+import pyvc.models.cplx as cplx
+from pyvc.values import Arr, Obj, LibFunc, sym_array
+import z3
 
 PROPERTY = "C16"
 LEVEL = "other"
 TS = "wavespectra/timeseries.py::"
+SP = "wavespectra/spectrum.py::"
+NAME_F, NAME_D, NAME_E = "frequency", "direction", "variance_density"
+COMPONENTS = ("z", "w", "u", "v", "x", "y")
 
 
-# library contract: np.fft.irfft(a, n=None) returns a real array of length n, or 2*(len(a)-1) when n is not given
+# ---------------------------------------------------------------- library contracts (assumed)
+# np.fft.irfft(a, n): n real samples (2(len(a)-1) when n is omitted).  Parseval, as numpy computes it: the input is cut / zero-padded to
+# n//2+1 coefficients, the imaginary part of the zero-frequency coefficient (and of the Nyquist one) is ignored, and
+#     y_t = (1/n) [ Re a_0 + 2 Re sum_{k=1}^{n/2-1} a_k e^{2 pi i k t/n} + Re a_{n/2} (-1)^t ].
+# For len(a) == n/2 (n even; what surface_timeseries passes: the Nyquist coefficient is the zero padding) this gives
+#     sum_t y_t = Re a_0      and      n sum_t y_t^2 = (Re a_0)^2 + 2 sum_{k=1}^{n/2-1} |a_k|^2 ,
+# which is what is assumed below (only in that case); `C16.bounded.irfft_parseval_as_assumed` checks the statement against numpy.
 def _irfft(interp, st, args, kwargs):
     a = st.deref(args[0])
-    if not (isinstance(a, Obj) and a.cls == "complex_array"):
-        raise T.Unsupported("irfft of a non-abstract array")
-    m = a.fields["n"]
+    if not cplx.is_c(a):
+        raise T.Unsupported("irfft of a non-complex array")
+    shape = cplx._shape(st, a)
+    if shape is None or len(shape) != 1:
+        raise T.Unsupported("irfft of a complex value that is not 1-d")
+    m = shape[0]
     n = st.deref(kwargs["n"]) if "n" in kwargs else (st.deref(args[1]) if len(args) > 1 else None)
     length = T.mul(2, T.sub(m, 1)) if n is None else n
-    from pyvc.values import sym_array
-    return st.alloc(sym_array(T.Fresh.name("irfft"), (length,)), "irfft")
+    y = sym_array(T.Fresh.name("irfft"), (length,))
+    if n is not None:
+        re, im = cplx.parts(st, a)
+        re, im = cplx._full(st, re, shape), cplx._full(st, im, shape)
+        t, k = T.Fresh.int("t"), T.Fresh.int("k")
+        s1 = T.make_sum(0, length, t, T.to_real(y.get((t,))))
+        t2 = T.Fresh.int("t")
+        s2 = T.make_sum(0, length, t2, T.to_real(T.mul(y.get((t2,)), y.get((t2,)))))
+        p = T.make_sum(1, m, k, T.to_real(T.to_z3(T.add(T.mul(re.get((k,)), re.get((k,))), T.mul(im.get((k,)), im.get((k,)))))))
+        re0 = re.get((0,))
+        fact = T.land(T.cmp("==", s1, re0), T.cmp("==", T.mul(length, s2), T.add(T.mul(re0, re0), T.mul(2, p))))
+        st.assume(T.to_z3(T.implies(T.land(T.cmp("==", T.mul(2, m), length), T.cmp(">=", m, 1)), fact)))
+        st.ghost["irfft"] = {"y": y, "re": re, "im": im, "m": m, "n": length}
+    return st.alloc(y, "irfft")
 
 
-lib.REG["numpy.fft.irfft"] = LibFunc("numpy.fft.irfft", lib._wrap("numpy.fft.irfft", _irfft))
+lib.REG["numpy.fft.irfft"] = LibFunc("numpy.fft.irfft", lib._wrap("numpy.fft.irfft (length; Parseval when len(a) == n/2)", _irfft))
 lib.REG["numpy.fft"] = __import__("pyvc.values", fromlist=["ModVal"]).ModVal("numpy.fft")
+
+# np.random.default_rng(seed).uniform(lo, hi, shape): the d-th draw of a generator is a function of (seed, d, index) — equal seeds give
+# equal draws.  Nothing else is assumed (not even the range); seed=None is an arbitrary seed.
+RNG = z3.Function("rng_uniform", T.IntS, T.IntS, T.IntS, T.IntS, T.RealS)
+
+
+def _default_rng(interp, st, args, kwargs):
+    seed = st.deref(kwargs["seed"]) if "seed" in kwargs else (st.deref(args[0]) if args else None)
+    if seed is None:
+        seed = T.Fresh.int("os_entropy")
+    return st.alloc(Obj("Generator", {"seed": seed, "draws": 0}), "Generator")
+
+
+lib.REG["numpy.random.default_rng"] = LibFunc("numpy.random.default_rng", lib._wrap("numpy.random.default_rng (pure function of the seed)", _default_rng))
+lib.REG["numpy.random"] = __import__("pyvc.values", fromlist=["ModVal"]).ModVal("numpy.random")
+
+
+class _RngPlugin:
+    def obj_getattr(self, interp, st, ref, o, name):
+        if not (isinstance(o, Obj) and o.cls == "Generator"):
+            return NotImplemented
+        if name != "uniform":
+            raise T.Unsupported(f"Generator.{name}")
+
+        def uniform(i, s, a, k):
+            shape = s.deref(a[2]) if len(a) > 2 else s.deref(k.get("size"))
+            shape = tuple(s.deref(x) for x in (shape if isinstance(shape, (tuple, list)) else (shape,)))
+            if not 1 <= len(shape) <= 2:
+                raise T.Unsupported("uniform with this shape")
+            d, seed = o.fields["draws"], o.fields["seed"]
+            o.fields["draws"] = d + 1
+            arr = Arr(shape, lambda ix: RNG(T.to_z3(seed), z3.IntVal(d), T.to_z3(ix[0]), T.to_z3(ix[1]) if len(ix) > 1 else z3.IntVal(0)), (), "real")
+            return s.alloc(arr, "uniform")
+        return LibFunc("Generator.uniform", lib._wrap("numpy.random.Generator.uniform", uniform))
+
+
+lib.PLUGINS.append(_RngPlugin())
+
+
+# ---------------------------------------------------------------- symbolic spectra, the interpolation stub
+def _spectrum_arg(mk, kind):
+    """a single spectrum (no leading dimensions) of the real class: frequency grid f0, densities E0 (2D: directions theta, degrees)"""
+    st = mk.st
+    nf0 = mk.size("nf0")
+    f0 = mk.array("f0", (nf0,))
+    coords = {NAME_F: st.deref(f0)}
+    if kind == "2d":
+        nd = mk.size("nd")
+        th = mk.array("theta", (nd,))
+        coords[NAME_D] = st.deref(th)
+        E0, dims, cls = mk.array("E0", (nf0, nd)), (NAME_F, NAME_D), "FrequencyDirectionSpectrum"
+    else:
+        E0, dims, cls = mk.array("E0", (nf0,)), (NAME_F,), "FrequencySpectrum"
+    vs = {NAME_E: xr.mk_xa(st, dims, st.deref(E0), None, coords)}
+    ds = st.alloc(Obj("Dataset", {"vars": vs, "coords": coords}), "dataset")
+    return mk.instance(SP + cls, {"dataset": ds})
+
+
+def _interp_result(mk, a):
+    """spectrum.interpolate_frequency(f): an object of the same class on the requested frequency grid (same directions), densities
+    without missing values (the method ends with fillna).  The interpolated densities are fresh symbols E'."""
+    st = mk.st
+    src = st.deref(a.self)
+    ds0 = st.deref(src.fields["dataset"])
+    fr = st.deref(a.new_frequencies)
+    if xr.is_xa(fr):
+        fr = fr.fields["arr"]
+    coords = {NAME_F: fr}
+    two_d = NAME_D in ds0.fields["coords"]
+    if two_d:
+        th = ds0.fields["coords"][NAME_D]
+        coords[NAME_D] = th
+        E = sym_array(T.Fresh.name("Ei"), (fr.shape[0], th.shape[0]))
+        dims = (NAME_F, NAME_D)
+    else:
+        E = sym_array(T.Fresh.name("Ei"), (fr.shape[0],))
+        dims = (NAME_F,)
+    vs = {NAME_E: xr.mk_xa(st, dims, E, None, coords)}
+    ds = st.alloc(Obj("Dataset", {"vars": vs, "coords": coords}), "dataset")
+    st.ghost["c16.interp"] = {"E": E, "f": fr, "theta": coords.get(NAME_D), "of": getattr(a.self, "id", None)}
+    return st.alloc(Obj(src.cls, {"dataset": ds}), "interpolated")
+
+
+INTERP_NOTE = ("returns a spectrum of the same class on the requested frequency grid with the same direction grid and no missing densities; "
+               "the interpolated values themselves are the subject of C13 and unconstrained here")
+INTERP_1D = CalleeContract(SP + "FrequencySpectrum.interpolate_frequency", _interp_result, assumed=True, note=INTERP_NOTE)
+INTERP_2D = CalleeContract(SP + "WaveSpectrum.interpolate_frequency", _interp_result, assumed=True, note=INTERP_NOTE)
+
+
+# ---------------------------------------------------------------- specification of the amplitudes (both modes)
+def _wrap180(x):
+    if is_symbolic(x):
+        return T.sub(T.mod(T.add(x, 180), 360), 180)
+    return (x + 180.0) % 360.0 - 180.0
+
+
+class View:
+    """interpolated spectrum, phases and result of a create_fourier_amplitudes call, symbolic or native"""
+
+    def __init__(self, a, r=None):
+        s = a.spectrum
+        self.sym = hasattr(s, "_o")
+        self.component = a.component
+        if self.sym:
+            g = s._st.ghost["c16.interp"]
+            self.two_d = g["theta"] is not None
+            E, f, th = g["E"], g["f"], g["theta"]
+            self.nf = f.shape[0]
+            self.nd = th.shape[0] if self.two_d else None
+            self.f = lambda k: f.get((k,))
+            self.theta = (lambda j: th.get((j,))) if self.two_d else None
+            self.E = (lambda k, j=None: E.get((k, j))) if self.two_d else (lambda k, j=None: E.get((k,)))
+            seed = a.seed if a.seed is not None else s._st.ghost.get("c16.entropy")
+            self.phi = lambda k, j=None: RNG(T.to_z3(seed), z3.IntVal(0), T.to_z3(k), T.to_z3(j) if j is not None else z3.IntVal(0))
+            self.pi = T.PI
+            if r is not None:
+                self.re = lambda k: (r.re[k] if hasattr(r.re, "shape") else r.re)
+                self.im = lambda k: (r.im[k] if hasattr(r.im, "shape") else r.im)
+        else:
+            import numpy as np
+            rs = s.interpolate_frequency(np.asarray(a.frequencies))
+            self.two_d = NAME_D in rs.dataset.coords
+            Ev = np.asarray(rs.variance_density.values, dtype="float64")
+            fv = np.asarray(rs.frequency.values, dtype="float64")
+            self.nf = len(fv)
+            self.f = lambda k: float(fv[k])
+            self.pi = np.pi
+            if self.two_d:
+                thv = np.asarray(rs.direction.values, dtype="float64")
+                self.nd = len(thv)
+                self.theta = lambda j: float(thv[j])
+                self.E = lambda k, j=None: float(Ev[k, j])
+            else:
+                self.nd, self.theta = None, None
+                self.E = lambda k, j=None: float(Ev[k])
+            ph = np.random.default_rng(seed=a.seed).uniform(0, 2 * np.pi, Ev.shape)
+            self.phi = (lambda k, j=None: float(ph[k, j])) if self.two_d else (lambda k, j=None: float(ph[k]))
+            if r is not None:
+                rv = np.asarray(getattr(r, "values", r))
+                self.re = lambda k: float(rv[k].real)
+                self.im = lambda k: float(rv[k].imag)
+
+    # bin widths of the *interpolated* spectrum: centred differences of its frequency grid, end bins extrapolated; wrapped forward
+    # differences of its directions (degrees)
+    def df(self, k):
+        f, n = self.f, self.nf
+        if self.sym:
+            lo = If(k >= 1, f(If(k >= 1, k - 1, 0)), 2 * f(0) - f(1))
+            hi = If(k + 1 < n, f(If(k + 1 < n, k + 1, 0)), 2 * f(n - 1) - f(n - 2))
+        else:
+            lo = f(k - 1) if k >= 1 else 2 * f(0) - f(1)
+            hi = f(k + 1) if k + 1 < n else 2 * f(n - 1) - f(n - 2)
+        return (f(k) - lo) * 0.5 + (hi - f(k)) * 0.5 if not self.sym else T.add(T.mul(T.sub(f(k), lo), Fraction(1, 2)), T.mul(T.sub(hi, f(k)), Fraction(1, 2)))
+
+    def dtheta(self, j):
+        th, n = self.theta, self.nd
+        if self.sym:
+            nxt = If(j + 1 < n, th(If(j + 1 < n, j + 1, 0)), th(0))
+            return _wrap180(nxt - th(j))
+        return _wrap180(th((j + 1) % n) - th(j))
+
+    def area(self, k, j=None):
+        return self.df(k) * self.dtheta(j) if self.two_d else self.df(k)
+
+    def omega(self, k):
+        return self.f(k) * 2 * self.pi
+
+    def factor(self, k, j=None):
+        """(real, imaginary) part of the component's transfer factor at (k, j); the direction of a 1D spectrum is 0"""
+        c = self.component
+        if self.two_d:
+            ang = self.theta(j) * self.pi / 180
+            cs, sn = cos(ang), sin(ang)
+        else:
+            cs, sn = 1, 0
+        w = self.omega(k)
+        return {"z": (1, 0), "w": (0, w), "u": (w * cs, 0), "v": (w * sn, 0), "x": (0, -cs), "y": (0, -sn)}[c]
+
+    def scale(self, k, j=None):
+        return sqrt(self.area(k, j) * self.E(k, j) / 2)
+
+    def term(self, k, j=None):
+        """sqrt(area E / 2) e^{i phi} factor  as (re, im)"""
+        s, ph = self.scale(k, j), self.phi(k, j)
+        fr, fi = self.factor(k, j)
+        c, n = s * cos(ph), s * sin(ph)
+        return c * fr - n * fi, c * fi + n * fr
+
+
+def _amp_value(a, r):
+    v = View(a, r)
+    if not v.two_d:
+        return forall(0, v.nf, lambda k: And(eq(v.re(k), v.term(k)[0]), eq(v.im(k), v.term(k)[1])), "k")
+    return forall(0, v.nf, lambda k: And(eq(v.re(k), Sum(0, v.nd, lambda j: v.term(k, j)[0])),
+                                         eq(v.im(k), Sum(0, v.nd, lambda j: v.term(k, j)[1]))), "k")
+
+
+def _amp_modulus(a, r):
+    """|amp_k|^2 = area_k E_k / 2 |factor_k|^2  (1D; wherever the radicand is not negative: otherwise numpy's sqrt is NaN)"""
+    v = View(a, r)
+
+    def one(k):
+        fr, fi = v.factor(k)
+        q = v.area(k) * v.E(k) / 2
+        return implies(q >= 0, eq(v.re(k) * v.re(k) + v.im(k) * v.im(k), q * (fr * fr + fi * fi), rtol=1e-9, atol=1e-15))
+    return forall(0, v.nf, one, "k")
+
+
+def _amp_len(a, r):
+    v = View(a, r)
+    if v.sym:
+        return And(*[x.shape[0] == v.nf for x in (r.re, r.im) if hasattr(x, "shape")], *[len(x.shape) == 1 for x in (r.re, r.im) if hasattr(x, "shape")])
+    import numpy as np
+    return np.asarray(getattr(r, "values", r)).shape == (v.nf,)
+
+
+def _p_amp(kind, comp):
+    def p(mk):
+        nf = mk.size("nf")
+        return {"component": comp, "spectrum": _spectrum_arg(mk, kind), "frequencies": mk.array("f", (nf,)), "seed": mk.int("seed")}
+    return p
 
 
 def _amp_result(mk, a):
+    """result builder for call sites: a complex array with one amplitude per requested frequency (the ensures are assumed there);
+    the interpolated spectrum it speaks about is created here as ghost state, as the stub does inside the body"""
     fr = mk.st.deref(a.frequencies)
+    sp = mk.st.deref(a.spectrum)
+    from pyvc.api import NS
+    _interp_result(mk, NS({"self": a.spectrum, "new_frequencies": a.frequencies}))
     mk.st.ghost["amp_args"] = (mk.st.deref(a.component), getattr(a.spectrum, "id", None), getattr(a.frequencies, "id", None), mk.st.deref(a.seed))
     mk.st.ghost["amp_nfreq"] = fr.shape[0]
-    return mk.st.alloc(Obj("complex_array", {"n": fr.shape[0]}), "amplitudes")
+    n = fr.shape[0]
+    return cplx.mk_c(mk.st, sym_array(T.Fresh.name("amp_re"), (n,)), sym_array(T.Fresh.name("amp_im"), (n,)))
 
 
-AMPS = CalleeContract(TS + "create_fourier_amplitudes", _amp_result, assumed=True,
-                      note="one complex amplitude per requested frequency (its values are the bounded part)")
+def _wit_spectrum(kind):
+    import numpy as np
+    from ocean_science_utilities.wavespectra.spectrum import create_1d_spectrum, create_2d_spectrum
+    f = np.linspace(0.02, 0.6, 30)
+    E1 = np.exp(-((f - 0.15) / 0.05) ** 2) + 0.01
+    if kind == "1d":
+        s = create_1d_spectrum(f, E1[None, :], 0.0, 0.0, 0.0, depth=np.inf)
+    else:
+        d = np.array([0.0, 10, 20, 40, 80, 120, 180, 200, 260, 300, 330, 350])
+        E2 = E1[:, None] * (1.2 + np.cos(np.radians(d - 40.0)))[None, :] / 360
+        s = create_2d_spectrum(f, d, E2[None, :, :], 0.0, 0.0, 0.0, depth=np.inf)
+    return s.isel(time=0) if "time" in s.dims else s
+
+
+def _native_amp(kw, inst):
+    import numpy as np
+    out = dict(kw)
+    kind = inst.split(",")[0]
+    if not hasattr(kw.get("spectrum"), "dataset"):
+        out["spectrum"] = _wit_spectrum(kind)
+    out["frequencies"] = np.asarray(kw["frequencies"], dtype="float64")
+    out["seed"] = abs(int(kw["seed"])) if kw.get("seed") is not None else None
+    return out
+
+
+def _wit_amp(kind, comp, n, fs, seed):
+    import numpy as np
+    return lambda: (f"{kind},{comp}", {"component": comp, "spectrum": _wit_spectrum(kind), "frequencies": np.linspace(0, 0.5 * fs, n, endpoint=False), "seed": seed})
+
+
+AMP_INST = [(f"{kind},{c}", _p_amp(kind, c)) for kind in ("1d", "2d") for c in COMPONENTS]
+I1D = {f"1d,{c}" for c in COMPONENTS}
+
+create_fourier_amplitudes = Contract(
+    TS + "create_fourier_amplitudes", instances=AMP_INST,
+    requires=[("at_least_two_frequencies", lambda a: a.frequencies.shape[0] >= 2),
+              ("at_least_one_direction", lambda a: a.spectrum.dataset.coords[NAME_D].n >= 1 if NAME_D in a.spectrum.dataset.coords else True)],
+    ensures=[("one_amplitude_per_frequency", _amp_len),
+             ("amplitude_is_sqrt_half_area_density_times_phase_times_component_factor", _amp_value),
+             ("squared_modulus_is_half_area_density_times_squared_factor", _amp_modulus, I1D)],
+    callees={INTERP_1D.target: INTERP_1D, INTERP_2D.target: INTERP_2D},
+    native=_native_amp,
+    witness=[_wit_amp(kind, c, n, fs, sd) for kind in ("1d", "2d") for c, n, fs, sd in
+             (("z", 32, 2.0, 3), ("w", 8, 1.0, 0), ("u", 16, 2.5, 11), ("v", 16, 2.5, 11), ("x", 50, 1.3, 7), ("y", 4, 1.0, 5))],
+    options={"result": _amp_result},
+)
 
 
 def _p_ts(mk):
-    sp = mk.st.alloc(Obj("SpectrumStub", {}), "spectrum")
+    sp = _spectrum_arg(mk, "1d")
     mk.st.ghost["spectrum_ref"] = sp.id
     return {"component": "z", "sampling_frequency": mk.real("fs"), "signal_length": mk.int("n"), "spectrum": sp, "seed": mk.int("seed")}
 
@@ -78,7 +382,7 @@ surface_timeseries = Contract(
                                                                a._ghost["amp_args"][1] == a._ghost["spectrum_ref"], eq(a._ghost["amp_args"][3], a.seed))
                                                              if hasattr(a, "_ghost") else True)),
     ],
-    callees={AMPS.target: AMPS}, native=_native_ts,
+    callees={create_fourier_amplitudes.target: create_fourier_amplitudes}, native=_native_ts,
     witness=[lambda c=c, fs=fs, n=n: ("", _native_ts({"component": c, "sampling_frequency": fs, "signal_length": n, "spectrum": None, "seed": 3}, "")) for c, fs, n in
              (("z", 2.0, 64), ("w", 0.5, 9), ("x", 10.0, 2000))],
 )
@@ -173,7 +477,7 @@ def _bounded_variance(tier, seed):
 
 
 BOUNDED = [Bounded("variance_reproducibility_scaling", _bounded_variance)]
-CONTRACTS = [surface_timeseries]
+CONTRACTS = [create_fourier_amplitudes, surface_timeseries]
 TRUSTED = ["np.fft.irfft(a, n) returns n real samples, 2(len(a)-1) when n is omitted; np.linspace(start, stop, num, endpoint=False)[k] = start + k (stop-start)/num",
            "Parseval's identity for irfft and the purity of numpy's default_rng(seed) are library facts: the variance / reproducibility clauses are bounded only"]
 EXPLANATION = ("surface_timeseries proved to return as many samples as time stamps (nfft = 2 floor(n/2)), spaced 1/fs, with the amplitudes requested on the FFT grid k fs/nfft for the caller's component, spectrum and seed; "
